@@ -67,7 +67,10 @@ fn layers(id: &str) -> (&'static str, Vec<Layer>) {
             Layer { tool: Miri, kind: "hist", extra: &[("hist", "1")], quick: 0, thorough: 32 },
             Layer { tool: Tsan, kind: "conc", extra: &[("runs", "3")], quick: 0, thorough: 100 },
         ]),
-        "C15" => ("c15", vec![
+        "C13" => ("c13", vec![
+            Layer { tool: Miri, kind: "all", extra: &[("part", "mini"), ("n", "2")], quick: 0, thorough: 24 },
+        ]),
+                "C15" => ("c15", vec![
             Layer { tool: Tsan, kind: "rand", extra: &[("runs", "6")], quick: 0, thorough: 64 },
         ]),
         _ => ("", vec![]),
